@@ -852,6 +852,46 @@ func checkPos(c PosCell, res *result) {
 	}
 }
 
+// checkTagForms: which fields of a struct parameter take part in the array mapping is what encoding/json says about
+// their tags: `json:"-"` is left out, `json:"-,"` is a field with the key "-", an untagged or
+// option-only tag keeps the field's name, unexported fields are out.
+type tagForms struct {
+	A     int    `json:"a"`
+	Dash  string `json:"-,"`
+	Skip  int    `json:"-"`
+	B     int    `json:"b,omitempty"`
+	Plain bool
+	Opt   string `json:",omitempty"`
+	hid   int
+}
+
+func checkTagForms(res *result) {
+	var got []tagForms
+	h := handler.New(func(_ context.Context, v tagForms) (int, error) { got = append(got, v); return v.A, nil })
+	for _, c := range []struct {
+		params string
+		want   *tagForms
+	}{
+		{`[1,"x",2,true,"o"]`, &tagForms{A: 1, Dash: "x", B: 2, Plain: true, Opt: "o"}},
+		{`[1,2,true,"o"]`, nil}, {`[1,"x",2,true]`, nil}, {`[1,"x",7,2,true,"o"]`, nil},
+		{`{"a":1,"-":"x","b":2,"Plain":true,"Opt":"o"}`, &tagForms{A: 1, Dash: "x", B: 2, Plain: true, Opt: "o"}},
+	} {
+		got = nil
+		_, herr, p := callSafely(h, mkReq(c.params))
+		res.Evaluations++
+		res.Classes["tagforms"]++
+		cell := "struct with every form of json tag"
+		switch {
+		case p != nil:
+			res.add("C15", cell, c.params, fmt.Sprintf("wrapper panicked: %v", p))
+		case c.want == nil && (len(got) != 0 || !isInvalidParams(herr)):
+			res.add("C15", cell, c.params, fmt.Sprintf("err=%v, %d calls; want InvalidParams without a call (five fields take part in the mapping)", herr, len(got)))
+		case c.want != nil && (herr != nil || len(got) != 1 || got[0] != *c.want):
+			res.add("C15", cell, c.params, fmt.Sprintf("err=%v, function received %+v; want one call with %+v", herr, got, *c.want))
+		}
+	}
+}
+
 // checkStrictNested: where unknown fields are refused they are refused at every depth - also inside the elements of a
 // params array (which become the values of the rewritten object verbatim), for each way strictness comes about:
 // SetStrict, a DisallowUnknownFields method on the parameter type, Positional.
@@ -885,11 +925,14 @@ func checkStrictNested(prop string, res *result) {
 	} else {
 		hs["positional"] = handler.NewPos(func(_ context.Context, in nInner, n int) (int, error) { calls++; return n, nil }, "in", "n")
 	}
+	// (bad: an unknown field somewhere inside; wrong: a value of the wrong type somewhere inside - refused by every handler)
 	inners := []struct {
-		text string
-		bad  bool
-	}{{`{"x":1}`, false}, {`{"x":1,"zzz":2}`, true}, {`{"x":1,"ys":[{"y":1},{"y":2,"zzz":0}]}`, true}, {`{"p":{"y":1,"q":null}}`, true},
-		{`{"m":{"k":{"y":1,"zzz":[]}}}`, true}, {`{"ys":[],"p":null,"m":{}}`, false}}
+		text  string
+		bad   bool
+		wrong bool
+	}{{`{"x":1}`, false, false}, {`{"x":1,"zzz":2}`, true, false}, {`{"x":1,"ys":[{"y":1},{"y":2,"zzz":0}]}`, true, false}, {`{"p":{"y":1,"q":null}}`, true, false},
+		{`{"m":{"k":{"y":1,"zzz":[]}}}`, true, false}, {`{"ys":[],"p":null,"m":{}}`, false, false},
+		{`{"x":"one"}`, false, true}, {`{"x":1,"ys":[{"y":true}]}`, false, true}, {`{"p":{"y":[2]}}`, false, true}, {`{"m":{"k":{"y":"1"}}}`, false, true}, {`{"ys":{"y":1}}`, false, true}}
 	for name, h := range hs {
 		for _, in := range inners {
 			for _, form := range []string{"array", "object"} {
@@ -901,8 +944,8 @@ func checkStrictNested(prop string, res *result) {
 				v, herr, p := callSafely(h, mkReq(params))
 				res.Evaluations++
 				res.Classes["nested/"+name]++
-				cell := "nested unknown field, handler " + name + ", " + form + " form"
-				refuse := in.bad && name != "lax"
+				cell := "nested unknown field / wrong type, handler " + name + ", " + form + " form"
+				refuse := (in.bad && name != "lax") || in.wrong
 				switch {
 				case p != nil:
 					res.add(prop, cell, params, fmt.Sprintf("wrapper panicked: %v", p))
@@ -1370,6 +1413,7 @@ func TestAdapt(t *testing.T) {
 			checkParallel("C15", res)
 			checkResultTypes(res)
 			checkStrictNested("C15", res)
+			checkTagForms(res)
 			res.Samples = append(res.Samples, "func(context.Context, S2) (any, error) with params [7,\"x\"], strict, AllowArray", "func(context.Context, ...[]int) int")
 		}
 		if which == "C16" {
